@@ -51,7 +51,61 @@ def jobs(seed=0):
                          cbmc_flags=["--no-signed-overflow-check", "--unwind", str(8 * nn + 2), "--unwinding-assertions"],
                          functions=[fn], timeout=1500, solver="race", tier="quick" if nn == 1 else "thorough",
                          bound_note="nn=%d elements unwound, every lane value" % nn))
+    J.append(Job(name="q120.b_to_znx128.boundary", props=["C10"], shape="S5", sources=SIMPLE, harness="q120_simple_s4.c",
+                 entry="h_s5_b_to_znx128_boundary", no_dfcc=True, defines={"NN": 1},
+                 cbmc_flags=["--no-signed-overflow-check", "--unwind", "14", "--unwinding-assertions"], functions=["q120_b_to_znx128_simple"],
+                 timeout=600, bound_note="concrete boundary vectors (closed-term evaluation, not a proof)"))
     J.append(Job(name="lemma.q120_integer_lemmas", props=["C10"], shape="S6", sources=[], harness="", entry="", kind="native",
                  native_cmd=["python3", "lemmas/q120_lemmas.py"], functions=[], timeout=900,
                  bound_note="z3 (z3-new 5.1 if present), linear integer arithmetic, constants read from the real q120_common.h"))
+    J += bbc_jobs()
+    return J
+
+
+_tab = None
+
+
+def native_tables():
+    """S5: run the real q120 table constructors natively (gcc, this machine's libm) and read h and the reduced powers"""
+    global _tab
+    if _tab is None:
+        import subprocess, tempfile, os
+        from . import core
+        d = tempfile.mkdtemp()
+        exe = os.path.join(d, "qh")
+        try:
+            subprocess.check_call(["gcc", "-O1", "-DNDEBUG", "-I" + core.SRC, os.path.join(core.VERIF, "lemmas", "q120_h.c"),
+                                   os.path.join(core.SRC, "q120", "q120_arithmetic_ref.c"), "-lm", "-o", exe], stderr=subprocess.DEVNULL)
+            out = subprocess.check_output([exe], text=True)
+            _tab = {l.split()[0]: int(l.split()[1]) for l in out.splitlines() if l.startswith(("BBC_H", "BAA_H", "BBB_H"))}
+        except Exception:
+            _tab = {}
+    return _tab
+
+
+def bbc_jobs():
+    J = []
+    t = native_tables()
+    if "BBC_H" not in t:
+        return J
+    h = t["BBC_H"]
+    REF = ["q120/q120_arithmetic_ref.c"]
+    d = {"BBC_H": h}
+    for entry, fn in (("h_accum_mul", "accum_mul_q120_bc"), ("h_accum_to", "accum_to_q120b")):
+        J.append(Job(name="q120.bbc.%s" % fn, props=["C10", "C04"], shape="S2", sources=REF, harness="q120_bbc.c", entry=entry, no_dfcc=True,
+                     export_static=True, defines=d, cbmc_flags=["--unwind", "10", "--unwinding-assertions", "--no-signed-overflow-check"],
+                     functions=[fn], timeout=1200, solver="race",
+                     bound_note="loop-free (4 lanes unwound), every operand value; table h=%d read from the real constructor (S5)" % h))
+    word = lambda j: "s[%d] <= i * 8589934590ul" % j
+    vk = lambda k: "((unsigned __int128)s[%d] + (((unsigned __int128)s[%d]) << 32)) == ACC[%d]" % (2 * k, 2 * k + 1, k)
+    inv = "i <= ell && " + " && ".join(word(j) for j in range(8)) + " && " + " && ".join(vk(k) for k in range(4))
+    J.append(Job(name="q120.bbc.q120_vec_mat1col_product_bbc_ref", props=["C10", "C04", "C11", "C18"], shape="S1", sources=REF, harness="q120_bbc.c",
+                 entry="h_bbc_ref", export_static=True, defines=d,
+                 enforce=[("q120_vec_mat1col_product_bbc_ref", "bbc_ref__c")],
+                 replace=[("__CPROVER_file_local_q120_arithmetic_ref_c_accum_mul_q120_bc", "accum_mul__c"),
+                          ("__CPROVER_file_local_q120_arithmetic_ref_c_accum_to_q120b", "accum_to_q120b__c")],
+                 loops={"q120_vec_mat1col_product_bbc_ref": {"count": 1, "loops": [
+                     {"id": 0, "assigns": "i, __CPROVER_object_whole(s), __CPROVER_object_whole(ACC)", "invariants": inv, "decreases": "ell - i"}]}},
+                 cbmc_flags=["--no-signed-overflow-check"], functions=["q120_vec_mat1col_product_bbc_ref"], timeout=1800, solver="race",
+                 bound_note="every ell <= 10000 (loop contract), ghost accumulators; step and final functions replaced by their contracts"))
     return J
